@@ -129,16 +129,14 @@ Fixpoint count_out (fuel : nat) (endv : Z) (rout : Z) (st : sie) : sie * Z :=
   end.
 
 (* _GD_SampIndWrite; None = the C function returns -1 (fseek/fread failure).
-   nrec is what _GD_GetNRec reports: fstat() of the descriptor, which does not
-   see records still sitting in the stdio buffer.  The second component of the
-   result is the size fstat() will report next time if nothing flushes the
-   stream in between (the final fwrite of the new records is not flushed
-   unless the file is truncated). *)
-Definition sie_write_n (zero : sample) (nrec : Z) (data : list sample) (st : sie) : option (sie * Z) :=
+   _GD_GetNRec flushes the stream before fstat() (fix dfe28bf), so nrec is the
+   number of records of the file. *)
+Definition sie_write (zero : sample) (data : list sample) (st : sie) : option sie :=
   match data with
-  | [] => Some (st, nrec)
+  | [] => Some st
   | d0 :: _ =>
     let nelem := Z.of_nat (length data) in
+    let nrec := Z.of_nat (length (recs st)) in
     (* phase 1: decide the first in-core record *)
     let ph1 : option (sie * sierec) :=
       if ((cr st =? -1) || bof st) && (cp st =? 0) then Some (st, (fst (cd st), d0))
@@ -193,54 +191,22 @@ Definition sie_write_n (zero : sample) (nrec : Z) (data : list sample) (st : sie
       let dl := last pb first in
       if (rin <? rout) && (nrec - rout + rin <? 0) then None   (* ftruncate to a negative size fails *)
       else
-      Some (mkSie f3 (fr + rin) (fr + rin - 1) (fst dl) (fst dl) dl (cl st2) false (rin <=? 1) (fst dl),
-            if rin <? rout then Z.of_nat (length f3) else Z.of_nat (length f1))
+      Some (mkSie f3 (fr + rin) (fr + rin - 1) (fst dl) (fst dl) dl (cl st2) false (rin <=? 1) (fst dl))
     end
   end.
 
-(* the handle: cursor + what fstat() sees *)
-Record sieh := mkSieh { sh : sie; disk_n : Z }.
-
-Definition sieh_open (zero : sample) (f : list sierec) : sieh := mkSieh (sie_open zero f) (Z.of_nat (length f)).
-
-Definition seek_is_noop (sample : Z) (st : sie) : bool := (filepos st =? sample) && (0 <=? cp st).
-
-(* gd_putdata on an open SIE file: seek in write mode, then write.  Every
-   path through _GD_SampIndSeek other than the immediate return repositions or
-   flushes the stream (rewind, fread after fwrite, fflush after the pad). *)
-Definition sie_put (zero : sample) (p : Z) (data : list sample) (h : sieh) : option sieh :=
+(* gd_putdata on an open SIE file: seek in write mode, then write *)
+Definition sie_put (zero : sample) (p : Z) (data : list sample) (st : sie) : option sie :=
   match data with
-  | [] => Some h
-  | _ =>
-    let st1 := sie_seek zero true p (sh h) in
-    let nrec := if seek_is_noop p (sh h) then disk_n h else Z.of_nat (length (recs st1)) in
-    match sie_write_n zero nrec data st1 with
-    | Some (st2, dn) => Some (mkSieh st2 dn)
-    | None => None
-    end
+  | [] => Some st
+  | _ => sie_write zero data (sie_seek zero true p st)
   end.
 
-(* the same with a _GD_GetNRec that sees the whole file (the repaired code) *)
-Definition sie_put_flushed (zero : sample) (p : Z) (data : list sample) (h : sieh) : option sieh :=
-  match data with
-  | [] => Some h
-  | _ =>
-    let st1 := sie_seek zero true p (sh h) in
-    match sie_write_n zero (Z.of_nat (length (recs st1))) data st1 with
-    | Some (st2, _) => Some (mkSieh st2 (Z.of_nat (length (recs st2))))
-    | None => None
-    end
-  end.
-
-(* gd_getdata through the same handle (n >= 1): fread flushes pending output *)
-Definition sie_get (zero : sample) (p : Z) (n : Z) (h : sieh) : sieh * list sample :=
-  let '(st, out) := sie_read n (sie_seek zero false p (sh h)) in
-  (mkSieh st (Z.of_nat (length (recs st))), out).
-
-(* gd_sync: fflush *)
-Definition sie_sync (h : sieh) : sieh := mkSieh (sh h) (Z.of_nat (length (recs (sh h)))).
+(* gd_getdata through the same handle *)
+Definition sie_get (zero : sample) (p : Z) (n : Z) (st : sie) : sie * list sample :=
+  sie_read n (sie_seek zero false p st).
 
 (* closing and reopening leaves the file *)
-Definition sie_reopen (zero : sample) (h : sieh) : sieh := sieh_open zero (recs (sh h)).
+Definition sie_reopen (zero : sample) (st : sie) : sie := sie_open zero (recs st).
 
-Definition sie_abs (h : sieh) : list sample := sie_expand (recs (sh h)).
+Definition sie_abs (st : sie) : list sample := sie_expand (recs st).
